@@ -131,6 +131,9 @@ public:
         "Pointer arithmetic overflowed a pointer beyond sandbox memory");      \
                                                                                \
       return tainted<T, T_Sbx>::internal_factory(reinterpret_cast<T>(target)); \
+    } else if constexpr (std::is_pointer_v<decltype(raw_rhs)>) {               \
+      /* number (op) tainted pointer: the pointer's own checked arithmetic */  \
+      return rhs opSymbol impl();                                              \
     } else {                                                                   \
       auto raw = impl().get_raw_value();                                       \
       auto ret = raw opSymbol raw_rhs;                                         \
